@@ -44,24 +44,38 @@ pub struct Ctx {
     pub maxima: BTreeMap<String, u64>,
     /// replay mode: known findings are still tolerated (they are listed), nothing else changes
     pub replay: bool,
+    /// no bookkeeping at all (libFuzzer targets: the histogram code would only add noise to coverage)
+    pub quiet: bool,
 }
 
 impl Ctx {
     pub fn new(want_sample: bool) -> Self {
-        Ctx { classes: BTreeMap::new(), nontrivial: Vec::new(), evals: 1, sample: None, want_sample, known_hits: vec![], maxima: BTreeMap::new(), replay: false }
+        Ctx { classes: BTreeMap::new(), nontrivial: Vec::new(), evals: 1, sample: None, want_sample, known_hits: vec![], maxima: BTreeMap::new(), replay: false, quiet: false }
     }
     pub fn maximum(&mut self, name: &str, v: u64) {
+        if self.quiet {
+            return;
+        }
         let e = self.maxima.entry(name.to_string()).or_insert(0);
         *e = (*e).max(v);
     }
     pub fn class(&mut self, label: &str) {
+        if self.quiet {
+            return;
+        }
         *self.classes.entry(label.to_string()).or_insert(0) += 1;
     }
     pub fn classf(&mut self, label: String) {
+        if self.quiet {
+            return;
+        }
         *self.classes.entry(label).or_insert(0) += 1;
     }
     /// Declare this case non-trivial by the property's rule, with a hash of the abstract case.
     pub fn nontrivial(&mut self, key: u64) {
+        if self.quiet {
+            return;
+        }
         self.nontrivial.push(key);
     }
     pub fn sample_with(&mut self, f: impl FnOnce() -> String) {
@@ -726,6 +740,35 @@ pub fn supervisor_main(p: &Property, tier: Tier, extra: Option<&ExtraEvidence>) 
         println!("  ({} worker processes died; the first 2 were located and minimised)", ncrashed);
     }
     total.failures.sort_by_key(|f| f["msg"].as_str().map(|m| m.len()).unwrap_or(0));
+    // thorough tier: every libFuzzer corpus entry and artefact is re-run through this stable,
+    // library-free path; only a failure confirmed here counts
+    let mut extra_ev = extra.cloned();
+    if let Ok(spec) = std::env::var("VERIF_FUZZ_CONFIRM") {
+        let (files, nontriv, bad, inc) = confirm_fuzz_dirs(p, &spec);
+        let mut e = extra_ev.take().unwrap_or_default();
+        e.fuzz_corpus_replayed = files;
+        e.fuzz_execs = std::env::var("VERIF_FUZZ_EXECS").ok().and_then(|s| s.parse().ok()).unwrap_or(0);
+        e.notes.push(format!("libFuzzer campaigns: {} (corpus entries and artefacts replayed through the stable harness: {}, non-trivial among them: {})", std::env::var("VERIF_FUZZ_NOTE").unwrap_or_default(), files, nontriv));
+        extra_ev = Some(e);
+        total.evaluations += files;
+        *total.classes.entry("phase:fuzz-corpus-replayed".to_string()).or_insert(0) += files;
+        for (path, msg) in bad.into_iter().take(5) {
+            // keep a copy of the offending input next to the other replays
+            let dest = out_dir().join("replays").join(format!("{}-fuzz-{}", p.id, path.file_name().and_then(|n| n.to_str()).unwrap_or("input")));
+            let kind_tape = spec.split(',').any(|part| part.starts_with("tape:") && path.starts_with(part.split_once(':').map(|x| x.1).unwrap_or("")));
+            let data = std::fs::read(&path).unwrap_or_default();
+            let body = if kind_tape { json!({"kind":"tape","tape_hex":hex(&data),"msg":msg}) } else { json!({"kind":"bytes","bytes_hex":hex(&data),"msg":msg}) };
+            let dest = dest.with_extension("json");
+            let mut o = body;
+            o["property"] = json!(p.id);
+            let _ = std::fs::write(&dest, serde_json::to_vec_pretty(&o).unwrap());
+            violations.push((dest, msg));
+        }
+        if let Some(i) = inc {
+            inconclusive = Some(i);
+        }
+    }
+    let extra = extra_ev.as_ref();
     {
         let mut seen = HashSet::new();
         total.failures.retain(|f| seen.insert(f["msg"].as_str().unwrap_or("").to_string()));
@@ -1011,4 +1054,95 @@ pub fn confirm_dir(p: &Property, dir: &Path, as_tape: bool, acc_classes: &mut BT
         }
     }
     (n, bad)
+}
+
+/// `harness confirm <ID> bytes|tape <dir>`: journalled run of every file of a directory through the
+/// stable oracle (child process of the supervisor; a crash is attributed to the last FILE line).
+pub fn confirm_main(p: &Property, kind: &str, dir: &Path) -> i32 {
+    install_quiet_panic_hook();
+    limit_address_space(12 << 30);
+    let p2 = p.clone();
+    let dir = dir.to_path_buf();
+    let as_tape = kind == "tape";
+    let h = std::thread::Builder::new()
+        .stack_size(2 << 20)
+        .spawn(move || {
+            let mut files: Vec<PathBuf> = match std::fs::read_dir(&dir) {
+                Ok(rd) => rd.flatten().map(|e| e.path()).filter(|p| p.is_file()).collect(),
+                Err(_) => vec![],
+            };
+            files.sort();
+            let mut n = 0u64;
+            let mut nontrivial = 0u64;
+            for f in files {
+                let data = match std::fs::read(&f) {
+                    Ok(d) => d,
+                    Err(_) => continue,
+                };
+                println!("FILE {}", f.display());
+                let _ = std::io::stdout().flush();
+                n += 1;
+                let mut ctx = Ctx::new(false);
+                let r = if as_tape { run_case_fn(&p2, &data, &mut ctx) } else { run_bytes_fn(&p2, &data, &mut ctx) };
+                if !ctx.nontrivial.is_empty() {
+                    nontrivial += 1;
+                }
+                if let Err(m) = r {
+                    println!("BAD {}\t{}", f.display(), m.replace('\n', " | "));
+                }
+            }
+            println!("DONE {} {}", n, nontrivial);
+        })
+        .unwrap();
+    match h.join() {
+        Ok(()) => 0,
+        Err(_) => 1,
+    }
+}
+
+/// Supervisor side of the confirmation of libFuzzer output (thorough tier).
+fn confirm_fuzz_dirs(p: &Property, spec: &str) -> (u64, u64, Vec<(PathBuf, String)>, Option<String>) {
+    let exe = std::env::current_exe().expect("exe");
+    let mut files = 0u64;
+    let mut nontrivial = 0u64;
+    let mut bad = vec![];
+    let mut inconclusive = None;
+    for part in spec.split(',').filter(|s| !s.is_empty()) {
+        let (kind, dir) = match part.split_once(':') {
+            Some(x) => x,
+            None => continue,
+        };
+        let out = Command::new(&exe).args(["confirm", p.id, kind, dir]).stderr(Stdio::null()).output();
+        let out = match out {
+            Ok(o) => o,
+            Err(e) => {
+                inconclusive = Some(format!("confirm child failed to start: {}", e));
+                continue;
+            }
+        };
+        let text = String::from_utf8_lossy(&out.stdout).to_string();
+        let mut last_file: Option<String> = None;
+        let mut done = false;
+        for line in text.lines() {
+            if let Some(f) = line.strip_prefix("FILE ") {
+                last_file = Some(f.to_string());
+            } else if let Some(rest) = line.strip_prefix("BAD ") {
+                let (f, m) = rest.split_once('\t').unwrap_or((rest, ""));
+                bad.push((PathBuf::from(f), m.to_string()));
+            } else if let Some(rest) = line.strip_prefix("DONE ") {
+                let mut it = rest.split_whitespace();
+                files += it.next().and_then(|x| x.parse().ok()).unwrap_or(0);
+                nontrivial += it.next().and_then(|x| x.parse().ok()).unwrap_or(0);
+                done = true;
+            }
+        }
+        if !done {
+            match (out.status.code(), last_file) {
+                (None, Some(f)) => bad.push((PathBuf::from(f), format!("process crash while confirming this input ({:?})", out.status))),
+                (Some(3), _) => inconclusive = Some("confirm child hit the watchdog".into()),
+                (c, f) => inconclusive = Some(format!("confirm child ended abnormally (code {:?}, last file {:?})", c, f)),
+            }
+        }
+    }
+    (files, nontrivial, bad, inconclusive)
 }
